@@ -37,6 +37,9 @@ struct MSheet {
     /// font size (style tag) carried by a row / column setting
     row_styles: BTreeMap<u32, u32>,
     col_styles: BTreeMap<u32, u32>,
+    /// conditional formats over whole columns ("B:C") and whole rows ("3:4"), as other producers write them
+    cf_cols: Vec<(u32, u32)>,
+    cf_rows: Vec<(u32, u32)>,
 }
 fn ins(x: u32, p: u32, n: u32) -> u32 {
     if x >= p {
@@ -78,6 +81,11 @@ impl MSheet {
             cm.1 = r;
         }
         if is_row {
+            self.cf_rows = self.cf_rows.iter().map(|&(a, b)| (ins(a, p, n), ins(b, p, n))).collect();
+        } else {
+            self.cf_cols = self.cf_cols.iter().map(|&(a, b)| (ins(a, p, n), ins(b, p, n))).collect();
+        }
+        if is_row {
             self.heights = self.heights.iter().map(|(&r, &h)| (ins(r, p, n), h)).collect();
             self.row_styles = self.row_styles.iter().map(|(&r, &h)| (ins(r, p, n), h)).collect();
         } else {
@@ -105,6 +113,11 @@ impl MSheet {
         self.cf = self.cf.iter().filter_map(g).collect();
         self.filter = self.filter.as_ref().and_then(g);
         self.comments = self.comments.iter().filter_map(|(c, r, t)| f(*c, *r).map(|(c, r)| (c, r, t.clone()))).collect();
+        if is_row {
+            self.cf_rows = self.cf_rows.iter().filter_map(|&(a, b)| rem_rect_axis(a, b, p, n)).collect();
+        } else {
+            self.cf_cols = self.cf_cols.iter().filter_map(|&(a, b)| rem_rect_axis(a, b, p, n)).collect();
+        }
         if is_row {
             self.heights = self.heights.iter().filter_map(|(&r, &h)| rem(r, p, n).map(|r| (r, h))).collect();
             self.row_styles = self.row_styles.iter().filter_map(|(&r, &h)| rem(r, p, n).map(|r| (r, h))).collect();
@@ -136,6 +149,8 @@ impl MSheet {
         m.sort();
         o.push(format!("MERGES {:?}", m));
         let mut m: Vec<String> = self.cf.iter().map(|x| x.s()).collect();
+        m.extend(self.cf_cols.iter().map(|(a, b)| format!("{}:{}", string_from_column_index(a), string_from_column_index(b))));
+        m.extend(self.cf_rows.iter().map(|(a, b)| format!("{}:{}", a, b)));
         m.sort();
         o.push(format!("CF {:?}", m));
         o.push(format!("FILTER {:?}", self.filter.as_ref().map(|x| x.s())));
@@ -273,6 +288,24 @@ pub fn run(args: &Args) {
                     ws.add_conditional_formatting_collection(cf);
                     model[si].cf.push(rc);
                 }
+                if rng.chance(1, 3) {
+                    // a conditional format over whole columns or whole rows
+                    let whole_cols = rng.chance(1, 2);
+                    let a = if whole_cols { ox + rng.range(1, W - 1) } else { oy + rng.range(1, H - 1) };
+                    let b = a + rng.range(0, 2);
+                    let sq = if whole_cols { format!("{}:{}", string_from_column_index(&a), string_from_column_index(&b)) } else { format!("{}:{}", a, b) };
+                    let mut cf = ConditionalFormatting::default();
+                    cf.get_sequence_of_references_mut().set_sqref(sq);
+                    let mut rule = ConditionalFormattingRule::default();
+                    rule.set_type(ConditionalFormatValues::CellIs);
+                    cf.add_conditional_collection(rule);
+                    ws.add_conditional_formatting_collection(cf);
+                    if whole_cols {
+                        model[si].cf_cols.push((a, b));
+                    } else {
+                        model[si].cf_rows.push((a, b));
+                    }
+                }
                 if rng.chance(1, 2) {
                     let rc = shift(rect_in(&mut rng));
                     ws.set_auto_filter(rc.s());
@@ -349,8 +382,8 @@ pub fn run(args: &Args) {
                     if is_ins {
                         // in-range arguments only: the model result must stay on the grid
                         let ms = &model[si];
-                        let maxr = ms.cells.keys().map(|k| k.1).chain(ms.merges.iter().chain(ms.cf.iter()).chain(ms.filter.iter()).map(|r| r.r2)).chain(ms.comments.iter().map(|c| c.1)).chain(ms.heights.keys().cloned()).max().unwrap_or(0);
-                        let maxc = ms.cells.keys().map(|k| k.0).chain(ms.merges.iter().chain(ms.cf.iter()).chain(ms.filter.iter()).map(|r| r.c2)).chain(ms.comments.iter().map(|c| c.0)).chain(ms.widths.keys().cloned()).max().unwrap_or(0);
+                        let maxr = ms.cells.keys().map(|k| k.1).chain(ms.merges.iter().chain(ms.cf.iter()).chain(ms.filter.iter()).map(|r| r.r2)).chain(ms.comments.iter().map(|c| c.1)).chain(ms.heights.keys().cloned()).chain(ms.cf_rows.iter().map(|r| r.1)).max().unwrap_or(0);
+                        let maxc = ms.cells.keys().map(|k| k.0).chain(ms.merges.iter().chain(ms.cf.iter()).chain(ms.filter.iter()).map(|r| r.c2)).chain(ms.comments.iter().map(|c| c.0)).chain(ms.widths.keys().cloned()).chain(ms.cf_cols.iter().map(|r| r.1)).max().unwrap_or(0);
                         if (is_row && maxr + n > 1_048_576) || (!is_row && maxc + n > 16384) {
                             continue 'hist;
                         }
